@@ -332,15 +332,21 @@ def Quotation.build (q : Quotation) : List Str :=
     [' ', ' ', ' ', ' ', '>', '>', '>', ' '] ++ q.causeLine,
     [' ', ' ', ' ', ' ', ' ', ' ', ' ', ' '] ++ q.lineMark ]
 
-/-- error_render.py:56-73 `__build_quotation`; `sm1` is the (1-based) lark source map of the node -/
-def buildQuotation (arg0 : Arg0) (fileExists : Bool) (filepath : Str) (lines : List Str) (sm1 : SourceMap) : Except Exc (List Str) :=
+/-- error_render.py:56-77 `__build_quotation`; `sm1` is the (1-based) lark source map of the node, `lines` what the file holds NOW
+    (the node may stem from an earlier parse). `spanGuard`: the early return for a node without a position; `lineGuard`: the early
+    return for a node whose begin line is beyond the file (both generated flags) -/
+def buildQuotationWith (spanGuard lineGuard : Bool) (arg0 : Arg0) (fileExists : Bool) (filepath : Str) (lines : List Str) (sm1 : SourceMap) : Except Exc (List Str) :=
   if arg0 ≠ .node then .ok []
   else if !fileExists then .ok []
-  else if quotationSpanGuard && (decide (sm1.beginLine < 1) || decide (sm1.beginColumn < 1)) then .ok []   -- only with the generated flag
+  else if spanGuard && (decide (sm1.beginLine < 1) || decide (sm1.beginColumn < 1)) then .ok []
+  else if lineGuard && !decide (sm1.beginLine ≤ lines.length) then .ok []
   else
     match Quotation.new filepath lines ⟨sm1.beginLine - 1, sm1.beginColumn - 1, sm1.endLine - 1, sm1.endColumn - 1⟩ with
     | .error x => .error x
     | .ok q => .ok q.build
+
+/-- `__build_quotation` of the current tree -/
+def buildQuotation := buildQuotationWith quotationSpanGuard quotationLineGuard
 
 /-! ## The request boundary of the interactive mode: bin/io.py `tty` (:25-46) and the quit test of Interactive.run (bin/transpile.py:416) -/
 
